@@ -196,7 +196,12 @@ class BaseLoader(ABC):
         # resource is not accessible.
         url = str(url)
         if url.startswith("package:"):
-            _, package, filename = url.split(":", 2)
+            try:
+                _, package, filename = url.split(":", 2)
+            except ValueError:
+                raise ZConfig.ConfigurationError(
+                    "package: URLs must have the form"
+                    " package:<package>:<file>", url)
             file = openPackageResource(package, filename)
         else:
             try:
@@ -276,8 +281,18 @@ class BaseLoader(ABC):
 
 
 def openPackageResource(package, path):
-    __import__(package)
+    try:
+        __import__(package)
+    except (ImportError, ValueError) as e:
+        raise ZConfig.SchemaResourceError(
+            f"could not load package {package}: {str(e)}",
+            filename=path,
+            package=package)
     pkg = sys.modules[package]
+    if not hasattr(pkg, "__path__"):
+        raise ZConfig.SchemaResourceError(
+            "import name does not refer to a package",
+            filename=path, package=package)
     try:
         loader = pkg.__loader__
     except AttributeError:
